@@ -25,7 +25,7 @@ CHUNK = 60
 
 
 def bounds(tier):
-    return {"bases": "6 + 4 with extreme geometry (coordinate validation only)", "singles": "every operator x every site", "pairs": "same-file pairs" if tier == "quick" else "all pairs",
+    return {"bases": "6 + 4 with extreme geometry (coordinate validation only) + a 7-level, 12-field plotfile with long FAB headers (single corruptions)", "singles": "every operator x every site", "pairs": "same-file pairs" if tier == "quick" else "all pairs",
             "limit_level": [None, 0], "coords": [False, True]}
 
 
@@ -56,6 +56,12 @@ def bases(seed=0):
             d.update({"fields": ["temp", "density"], "layout": lays["multi" if (gi + nd) % 2 else "nonmono"], "payload": "coded",
                       "seed": seed, "layout_class": "extreme_geometry_%d" % gi, "coords_only": True})
             out.append(d)
+    # seven levels towards the far corner, twelve fields: FAB header lines longer than 100 bytes; single corruptions only
+    d = dict(scope.deep_corner_mesh())
+    d.update(list(scope.geometries(3))[seed % 6])
+    d.update({"fields": list(scope.DEEP_FIELDS), "payload": "coded", "seed": seed, "layout_class": "deep", "singles_only": True,
+              "layout": [None, lays["multi"][0], None, lays["nonmono"][0], None, lays["multi"][0], lays["nonmono"][0]]})
+    out.append(d)
     return out
 
 
@@ -91,7 +97,7 @@ def enumerate_mutants(desc, tier, textual=False, workdir="/dev/shm"):
     for m in s0:
         if m[0] == "index":
             out.append(([m], True))
-    for a, b in itertools.combinations(s0, 2):
+    for a, b in ([] if desc.get("singles_only") else itertools.combinations(s0, 2)):
         if mutate.site(a) == mutate.site(b):
             continue
         if tier == "quick" and not same_file_pair(a, b, model):
